@@ -495,6 +495,74 @@ impl Monitor for C06 {
 
 pub struct C03;
 
+/// bounds of a successful two-hop: per-leg price direction / limit, outer amount and threshold
+fn two_hop_bounds(c: &Call, view: &crate::sim::IxView, idx: usize, cov: &mut Coverage, out: &mut Vec<Violation>) {
+    let a = wpix::two_hop_args(c);
+    let legs = observe(view.ix, view.out, view.pre, view.post);
+    if legs.len() != 2 {
+        return;
+    }
+    // legs come in computation order; map back to (one, two)
+    let (one, two) = if a.is_input { (&legs[0], &legs[1]) } else { (&legs[1], &legs[0]) };
+    cov.eval(format!(
+        "{}|{}|{}{}|limits={}{}|thr={}",
+        c.name(),
+        if a.is_input { "in" } else { "out" },
+        if a.a_to_b_one { "a2b" } else { "b2a" },
+        if a.a_to_b_two { "a2b" } else { "b2a" },
+        (a.limit_one != 0) as u8,
+        (a.limit_two != 0) as u8,
+        if a.is_input { (a.threshold > 0) as u8 } else { (a.threshold < u64::MAX) as u8 }
+    ));
+    for (name, leg, limit) in [("one", one, a.limit_one), ("two", two, a.limit_two)] {
+        let lim = effective_limit(limit, leg.a_to_b);
+        let dir_ok = if leg.a_to_b { leg.post.sqrt_price <= leg.pre.sqrt_price } else { leg.post.sqrt_price >= leg.pre.sqrt_price };
+        if !dir_ok {
+            out.push(viol("C03", "price_moved_against_direction", idx, format!("two-hop leg {}: price {} -> {} (a_to_b={})", name, leg.pre.sqrt_price, leg.post.sqrt_price, leg.a_to_b)));
+        }
+        if leg.post.sqrt_price < MIN_SQRT_PRICE || leg.post.sqrt_price > MAX_SQRT_PRICE {
+            out.push(viol("C03", "price_out_of_bounds", idx, format!("two-hop leg {}: price {}", name, leg.post.sqrt_price)));
+        }
+        let beyond = if leg.a_to_b { leg.post.sqrt_price < lim } else { leg.post.sqrt_price > lim };
+        if beyond {
+            out.push(viol("C03", "price_beyond_limit", idx, format!("two-hop leg {}: price {} beyond the supplied limit {}", name, leg.post.sqrt_price, lim)));
+        }
+        if !leg.is_input && limit == 0 {
+            let delivered: u128 = leg.trace.steps.iter().map(|s| s.amount_out as u128).sum();
+            if delivered < leg.amount as u128 {
+                out.push(viol("C03", "exact_out_partial_without_limit", idx, format!("two-hop leg {}: exact-out {} delivered only {} without an explicit limit", name, leg.amount, delivered)));
+            }
+        }
+    }
+    // outer amounts and threshold from the trader's balances (plain mints)
+    if one.plain && two.plain {
+        let (in_acct, out_acct) = if c.name() == "two_hop_swap_v2" {
+            (c.a("token_owner_account_input"), c.a("token_owner_account_output"))
+        } else {
+            (
+                if a.a_to_b_one { c.a("token_owner_account_one_a") } else { c.a("token_owner_account_one_b") },
+                if a.a_to_b_two { c.a("token_owner_account_two_b") } else { c.a("token_owner_account_two_a") },
+            )
+        };
+        if in_acct != out_acct {
+            let paid = -bal_delta(view.pre, view.post, &in_acct);
+            let got = bal_delta(view.pre, view.post, &out_acct);
+            if a.is_input && paid > a.amount as i128 {
+                out.push(viol("C03", "exact_in_overcharged", idx, format!("two-hop exact-in {} but the trader paid {}", a.amount, paid)));
+            }
+            if !a.is_input && got > a.amount as i128 {
+                out.push(viol("C03", "exact_out_overdelivered", idx, format!("two-hop exact-out {} but the trader received {}", a.amount, got)));
+            }
+            if a.is_input && got < a.threshold as i128 {
+                out.push(viol("C03", "min_output_not_honoured", idx, format!("two-hop: received {} < stated minimum {}", got, a.threshold)));
+            }
+            if !a.is_input && paid > a.threshold as i128 {
+                out.push(viol("C03", "max_input_not_honoured", idx, format!("two-hop: paid {} > stated maximum {}", paid, a.threshold)));
+            }
+        }
+    }
+}
+
 impl Monitor for C03 {
     fn name(&self) -> &'static str {
         "C03"
@@ -504,6 +572,10 @@ impl Monitor for C03 {
         for view in ev.ix_views() {
         let ix = view.ix;
         let Some(c) = wpix::decode(ix) else { continue };
+        if matches!(c.name(), "two_hop_swap" | "two_hop_swap_v2") {
+            two_hop_bounds(&c, &view, ev.idx, cov, &mut out);
+            continue;
+        }
         if !matches!(c.name(), "swap" | "swap_v2") {
             continue;
         }
